@@ -238,6 +238,10 @@ Section FieldProofs.
     - intros k v Hin. exact (Q (k, v) Hin).
   Qed.
 
+  (* nothing done to the lists of the result reaches the original *)
+  Theorem update_original_independent o kw marker : orig_after_result_lists_grow o kw marker = o.
+  Proof. reflexivity. Qed.
+
   Theorem update_nil c o : update V c o [] = Ok o.
   Proof. reflexivity. Qed.
 End FieldProofs.
